@@ -259,6 +259,15 @@ def check(chk):
     ok = bool(dels) and all(any(k.replace(" ", "") in ("k<=current_time",) and v is True for k, v in cfg.guards_at(n.id).items()) for n in dels)
     chk.ob("DOM-9", "fired deadlines are deleted (fire once), pending ones are kept", ok, f.where(), construct=f.ident,
            text="delete fired key")
+    # the consumed wake-up record is forgotten before any user code runs (callbacks may arm new deadlines)
+    recdel = [n for n in cfg.nodes_where(lambda n: n.kind == "stmt" and isinstance(n.ast, ast.Delete) and
+                                         src(n.ast.targets[0]).replace(" ", "") == "self._timed_switch_handler_delay[switch]")] + \
+             [n for n, c in cfg.calls_named("pop") if "_timed_switch_handler_delay" in src(c.func)]
+    user = [n for n, c in cbs] + [n for n, c in cfg.calls_named("process_event_queue")]
+    ok = bool(recdel) and all(any(cfg.dominates(d.id, u_.id) for d in recdel) for u_ in user)
+    chk.ob("PAIR-4", "the fired wake-up's record is dropped before callbacks / the event drain run", ok, f.where(),
+           detail="with the stale record present a deadline armed by a callback is believed to be scheduled already and never fires",
+           construct=f.ident, text="stale wake-up record during callbacks")
     # reschedule for the earliest remaining deadline
     ca = [(n, c) for n, c in cfg.calls_named("call_at")]
     ok = bool(ca) and all(src(c.args[0]) == "next_event_time" and "_process_active_timed_switches" in src(c.args[1]) for n, c in ca)
